@@ -17,21 +17,21 @@ CHECKS = {
         text="TLC enumerates templates from the language specification and computes, for each and for several environments (condition valuations, list lengths, switch keys), the denoted document as a token sequence with must/mustnot/may separator requirements plus the list of expression evaluations. Each program is printed as templ source (three spellings), generated with the working tree's templ CLI, compiled (~500 templates per package), rendered, tokenised with x/net/html and matched against the denotation; evaluation multisets are compared. A generated file that does not compile is a violation attributed to its template.",
         note="Trusted: Denote (reviewed against the property text; the whitespace clause is encoded as a relation so only what the property states is demanded), the concretiser, x/net/html, the Go compiler. Language subset as listed in the evidence assumptions; values are fixed strings with markup metacharacters, escaping itself is C01's business.",
         design="DESIGN.md §4 C02",
-        modules=["TemplLang", "MCTemplLang"], pkgs=["c02", "templang"]),
+        modules=["TemplLang", "MCTemplLang", "TemplVocab"], pkgs=["c02", "templang"]),
     "C08": dict(
         level="translation_validation",
         technique="TLA+ builder spec of the templ language (TemplLang.tla) enumerated by TLC; every program, in three concrete spellings, is formatted by the real formatter and the real generator's output for original and formatted source is compared",
         text="Programs are enumerated by TLC from the language specification (BFS within node budgets per focus family: whitespace, single-line specials, control flow, attributes, components; plus seeded simulation of deep programs), concretised in three spellings, and for each the repository's fmtcmd formatter output must be accepted by parser+generator+gofmt and generate the same Go program (positions in templ.Error masked, gofmt layout); all .templ files of the repository are checked the same way. Failures are attributed to a root cause by re-running the oracle on an AST with the suspect feature removed.",
         note="Trusted: the concretiser (AST -> source, harness/templang), go/format, the masking regex for templ.Error positions. The enumerated language is a subset of templ (no css/script templates, one-line Go expressions). Known, unrepaired formatter defects are listed in known-findings.json by root cause.",
         design="DESIGN.md §4 C08",
-        modules=["TemplLang", "MCTemplLang"], pkgs=["c08", "templang"]),
+        modules=["TemplLang", "MCTemplLang", "TemplVocab", "FmtLayout", "MCFmtLayout"], pkgs=["c08", "templang"]),
     "C09": dict(
         level="model_checking",
         technique="TLA+ builder spec of the templ language (TemplLang.tla) enumerated by TLC; fmt(fmt(x)) = fmt(x) checked with the real formatter on every enumerated program spelling",
         text="Same program stream as C08 (TLC enumeration of TemplLang.tla families + seeded simulation, three spellings each, plus the repository's templates); the oracle is byte equality of the formatter's output with the formatter applied to its own output, through the real fmtcmd.Run path.",
         note="Stage 1 of DESIGN.md §4 C09 only (no layout model of the formatter yet): the specification supplies the program space and TLC checks the language model's own invariants; idempotence itself is decided on the real formatter. imports.Process is not exercised (stdin path).",
         design="DESIGN.md §4 C09",
-        modules=["TemplLang", "MCTemplLang"], pkgs=["c08", "templang"]),
+        modules=["TemplLang", "MCTemplLang", "TemplVocab", "FmtLayout", "MCFmtLayout"], pkgs=["c08", "templang"]),
 }
 
 NOT_YET = "check not built yet in this round (planned in DESIGN.md §7); not claimed until its spec and conformance harness exist"
@@ -72,7 +72,7 @@ def main():
                 "quick_cmd": "bin/check %s quick" % i,
                 "thorough_cmd": "bin/check %s thorough" % i,
                 "evidence_file": "evidence/%s.json" % i,
-                "replay_cmd_template": "cat {path}",
+                "replay_cmd_template": "bin/replay {path}",
                 "engine": "tlc-mc+tlc-gen",
                 "level_claimed": {"category": c["level"], "text": c["text"], "design_ref": c["design"]},
                 "level_note": c["note"],
